@@ -593,6 +593,14 @@ def run(ctx: Context) -> None:
     for i in sub3.instances:
         ctx.add("R9", i.key.split("/", 2)[2], i.ok, i.where, i.detail)
     ctx.floor("R9", "shared obligations", ctx.count("R9"), 10)
+    # R10: SQL upserts keep what other statements maintain (generic form of C13/R12, over every SQLite component)
+    from . import c13
+
+    ctx.rule("R10", "no `INSERT OR REPLACE` / `REPLACE` of a SQLite component lists fewer columns than the UPDATE statements of that component maintain for the table (REPLACE deletes the row: the omitted columns fall back to their defaults, the in-memory sibling keeps them)")
+    rows = c13.replace_resets(ctx.repo, sites)
+    for s_, t_, miss in rows:
+        ctx.add("R10", f"{s_.func.qualname}::replace-keeps-maintained-columns::{t_.split('.')[-1]}", not miss, s_.where, "" if not miss else f"INSERT OR REPLACE INTO {t_} omits {miss}, which UPDATE statements of the same component write: the value is lost whenever the row is written again")
+    ctx.floor("R10", "replace statements", len(rows), 15)
     ctx.exhaustive = True
     ctx.not_decided += [
         "equivalence over operation sequences and agreement with an executable reference model (behavioural)",
